@@ -1094,6 +1094,20 @@ func (fr *Frame) evalCall(x *ECall, env *evalEnv) (Value, error) {
 			return nil, fmt.Errorf("fresh() needs an old state")
 		}
 		return boolV(and(refLe(env.old.alloc, ref), refLt(ref, env.st.alloc))), nil
+	case "loopfresh":
+		// loopfresh(x): x was allocated after the enclosing loop was entered
+		v, err := arg(0)
+		if err != nil {
+			return nil, err
+		}
+		if env.loopEntry == nil {
+			return nil, fmt.Errorf("loopfresh() is only available in loop clauses")
+		}
+		ref, err := refOf(v)
+		if err != nil {
+			return nil, err
+		}
+		return boolV(and(refLe(env.loopEntry.alloc, ref), refLt(ref, env.st.alloc))), nil
 	case "allocated":
 		v, err := arg(0)
 		if err != nil {
